@@ -138,6 +138,13 @@ Theorem C06_lcp_no_own_magic :
 Proof. exact lcp_no_own_magic. Qed.
 Print Assumptions C06_lcp_no_own_magic.
 
+(* Observation (not covered by the theorem above, outside the property as stated): with local magic 0 a
+   subscriber Magic-Number of 0 is acknowledged although RFC 1661 6.4 says zero must always be Nak'd. *)
+Example C06_lcp_zero_magic_observation :
+  r_ack (fst (lcp_req repaired 0 lpeer0 [mkopt 5 [0;0;0;0]%N])) = [mkopt 5 [0;0;0;0]%N].
+Proof. vm_compute. reflexivity. Qed.
+Print Assumptions C06_lcp_zero_magic_observation.
+
 (* Repaired behaviour: an acknowledged Authentication-Protocol option is PAP or exactly CHAP with
    algorithm MD5 (the only ones pkg/ppp/auth.go implements); any other one of at least 2 bytes is answered
    with a Nak suggesting CHAP-MD5 and the reply is not an Ack. *)
